@@ -419,6 +419,62 @@ var Scenarios = []Directed{
 		s.Restart()
 		s.Blocks(6, allHdr)
 	}},
+	{"withdraw_without_issuance", []string{"C13", "C07", "C19"}, fam(0), func(s *Script) {
+		// withdrawals by accounts that earn nothing in the block of the withdrawal: a delegator that left more than four
+		// blocks ago, the delegators of an absent validator, then restarts and further withdrawals
+		s.Blocks(2, allHdr)
+		s.Begin(allHdr) // 3
+		s.expect(OK(s.Stake(4, 1, "4e18")), "a4 -> a1")
+		s.expect(OK(s.Stake(5, 3, "1e18")), "a5 -> a3")
+		s.expect(OK(s.Stake(1, 1, "8e18")), "a1 adds to its own stake (so that a3 may be absent later)")
+		s.End()
+		s.Blocks(6, allHdr) // 4..9: both earn
+		s.Begin(allHdr)     // 10
+		s.expect(OK(s.Unstake(4, 1, s.StakeIDs(4, 1)[0])), "a4 leaves")
+		s.End()
+		s.Blocks(6, allHdr) // 11..16: a4 earns until 14 at most
+		half := func(a int) string { return new(big.Int).Div(s.Cum(a), big.NewInt(2)).String() }
+		s.Begin(allHdr) // 17
+		s.expect(OK(s.Withdraw(4, half(4))), "a4 withdraws half, earning nothing any more")
+		s.End()
+		s.Restart()
+		s.Begin(Hdr{Absent: []int{3}}) // 18: a3 did not sign: a5 earns nothing in this block
+		s.expect(OK(s.Withdraw(5, half(5))), "a5 withdraws half in a block in which its validator was absent")
+		s.expect(OK(s.Withdraw(4, s.Cum(4).String())), "a4 withdraws the rest")
+		s.expect(!OK(s.Withdraw(4, "1")), "nothing is left for a4")
+		s.End()
+		s.Restart()
+		s.Begin(allHdr) // 19
+		s.expect(!OK(s.Withdraw(4, "1")), "still nothing after a restart")
+		s.expect(OK(s.Withdraw(5, "1")), "a5 goes on")
+		s.End()
+		s.Blocks(2, allHdr)
+	}},
+	{"many_proposals_one_block", []string{"C01", "C15"}, fam(0), func(s *Script) {
+		// six proposals with different parameters that are applied in the same block
+		s.Blocks(3, allHdr)
+		docs := []string{`{"gasPrice":"20"}`, `{"gasPrice":"30"}`, `{"minTrxGas":"15"}`, `{"slashRatio":"40"}`, `{"lazyRewardBlocks":"5"}`, `{"rewardPerPower":"3000000000"}`}
+		s.Begin(allHdr) // 4
+		for i, d := range docs {
+			s.expect(OK(s.Propose(1+i%3, 6, 2, 10, d)), "proposal")
+		}
+		s.End()
+		p := s.Proposals()
+		s.Blocks(1, allHdr)
+		s.Begin(allHdr) // 6
+		for _, id := range p {
+			s.Vote(1, id, 0)
+			s.Vote(2, id, 0)
+			s.Vote(3, id, 0)
+		}
+		s.End()
+		s.Blocks(5, allHdr) // applied at 10, in force from 11
+		for i := 0; i < 3; i++ {
+			s.Begin(allHdr)
+			s.Transfer(4, 5, "1e18")
+			s.End()
+		}
+	}},
 	{"two_proposals_one_block", []string{"C15", "C16"}, fam(0), func(s *Script) {
 		s.Blocks(3, allHdr)
 		s.Begin(allHdr)
